@@ -109,10 +109,14 @@ func (p *parser) nextFrag(first, lastDescent bool) (f Frag) {
 		case '$':
 			if first {
 				f = Root('$')
+			} else {
+				p.pos-- // not part of the path, leave it to the caller
 			}
 		case '@':
 			if first {
 				f = At('@')
+			} else {
+				p.pos--
 			}
 		case '.':
 			f = p.afterDot()
